@@ -99,9 +99,42 @@ def pairs(ctx, n, btypes=("app", "app", "card", "cum", "ord")):
 def run(ctx):
     ctx.rule = RULE
     items = ruleprops.run_items(ctx, pairs(ctx, ctx.scale(3000, 30000)), predicate, nontrivial)
+    lazy_diff(ctx, items)
     history.run_history(ctx, "mes", ctx.scale(300, 3000))
     ctx.extra["capped_runs"] = sum(1 for it in items if getattr(it, "capped", False))
     ctx.extra["binary_sat"] = {str(k): sum(1 for it in items if it.cfg.get("binary") == k) for k in (None, True, False)}
+
+
+def lazy_line(it):
+    """the request line of the item for the lazy model (`meslazy`): same arguments, plus the binary-satisfaction
+    flag the library effectively used (binary_sat=None means: on for approval profiles)"""
+    binary = it.cfg.get("binary")
+    if binary is None:
+        binary = it.case.btype == "app"
+    return "meslazy" + it.line[len("mes"):] + f" bin={1 if binary else 0}"
+
+
+def lazy_diff(ctx, items):
+    """the lazy model (stored affordabilities, early break, permanent removals, binary shortcut) is diffed against the
+    library as well: it must give the same answers as the library (and hence as the eager model)"""
+    todo = [it for it in items if it.line is not None and it.line.startswith("mes ")]
+    # the lazy model threads its stored affordabilities through closures and is slow on the larger elections:
+    # all small elections, and a capped number of the larger ones
+    small = [it for it in todo if len(it.case.projects) <= 6]
+    large = [it for it in todo if len(it.case.projects) > 6]
+    todo = small + large[: (40 if ctx.tier == "quick" else 400)]
+    outs = core.run_driver([lazy_line(it) for it in todo])
+    n_bin = 0
+    for it, out in zip(todo, outs):
+        impl_s = rules.canon(it.ans).strip()
+        model_s = out.strip()
+        n_bin += lazy_line(it).endswith("bin=1")
+        if impl_s != model_s:
+            ctx.disagreements.append(
+                {"line": lazy_line(it), "impl": impl_s, "model": model_s, "model_eager": getattr(it, "model", None),
+                 "case": it.case.to_json(), "cfg": ruleprops.cfg_json(it.cfg)}
+            )
+    ctx.extra["lazy_model"] = {"compared": len(todo), "binary_shortcut_on": n_bin}
 
 
 def search(ctx, disagreements):
